@@ -107,7 +107,7 @@ PROPS = {
                                         'Loops.v abstracts the protocol to its effect on (height, view), timer and SPI calls; it is tied to the code by the runtime engine (trace acceptor Runtime.v + monitors); the sequential node model (Term.v, ESync) by the world engine'],
     },
     'C16': {
-        'engines': [{'name': 'trigger', 'quick_args': ['-n', '60'], 'thorough_args': ['-n', '600'], 'cache': False}, RUNTIME],
+        'engines': [{'name': 'trigger', 'quick_args': ['-n', '60'], 'thorough_args': ['-n', '600'], 'cache': False}, {'name': 'registry'}, RUNTIME],
         'trusted_base': ['theorems in coq/props/C16.v about coq/theories/Loops.v, Timer.v (proofs in LoopsFacts.v, TimerFacts.v)'],
         'assumptions': COMMON_ASSUME + ['the Go scheduler eventually runs an enabled step and select eventually picks the ready ctx.Done case ("within a bounded time" is observed by the runtime engine, the theorem bounds the number of steps)',
                                         'goroutines of the library are the main loop, the worker loop and one per fired timer instance (govnr supervision goroutines end with their loops); goroutine accounting is a runtime observation',
